@@ -19,6 +19,7 @@ Service requests (parsing, handling, etc).
 from urllib.parse import parse_qsl, quote
 
 from mapproxy.util.py import cached_property
+from mapproxy.util.escape import escape_html
 
 
 class NoCaseMultiDict(dict):
@@ -272,7 +273,8 @@ class Request(object):
 
     @property
     def base_url(self):
-        return (self.host_url.rstrip('/')
+        # the host is taken from request headers and ends up in capabilities documents
+        return (escape_html(self.host_url.rstrip('/'))
                 + quote(self.environ.get('SCRIPT_NAME', '').rstrip('/'))
                 + quote(self.environ.get('PATH_INFO', ''))
                 )
